@@ -238,12 +238,7 @@ func (i Int64) ExponentiateInt64(other Int64) Int64 {
 	if other <= 0 {
 		return 1
 	}
-	result := i
-	var j Int64
-	for j = 2; j <= other; j++ {
-		result *= i
-	}
-	return result
+	return StrictIntExponentiate(i, other)
 }
 
 func (i Int64) Subtract(other Value) (Int64, Value) {
